@@ -3,7 +3,7 @@ import z3
 
 from pyvc import ty as T
 from pyvc.api import BOOL, INT, STR, Const, Dict, List, Loop, Opt, Ref, Set, Tuple, cls, contract
-from pyvc.core import Val
+from pyvc.core import Unsupported, Val
 
 from . import spec  # noqa: F401
 
@@ -449,6 +449,39 @@ def _g_drawPoints(ex, st, self, args, kwargs, node):
 
 _g_drawPoints.modifies = ["StubGlyph.drawn_from", "StubGlyph.drawn_reversed"]
 
+_FRAME_FIELDS = ("name", "unicodes", "width")
+
+
+def _frame(kind):
+    """Frame condition as a derived Bool (needs the pre-state, so only meaningful inside a postcondition):
+    `fresh-only`: every glyph object that existed in the pre-state has the same name / unicodes / width as in the pre-state;
+    `only-self` : the same for every glyph object other than the receiver.
+    (The clause language has no quantifier over all objects; this states one with the heap arrays of both states.)"""
+
+    def derived(ex, st, self):
+        from pyvc.core import ContractMisfit
+        from pyvc.symex import BIRTH
+
+        old = ex.old_state
+        if old is None:
+            raise ContractMisfit("frame view used outside a postcondition")
+        r = _z3.Const("r!frame", T.RefSort)
+        t0 = old.alloc if old.alloc is not None else _z3.Int("now0")
+        guard = (BIRTH(r) < t0) if kind == "fresh-only" else (r != ex_lift(self, Ref("StubGlyph")))
+        same = []
+        for f in _FRAME_FIELDS:
+            cur = ex.field_array(st, "StubGlyph", f)
+            was = ex.field_array(old, "StubGlyph", f)  # (a field array first touched after the pre-state snapshot is the initial one, H0_…)
+            if cur is was or _z3.eq(cur, was):
+                continue  # field array untouched
+            same.append(_z3.Select(cur, r) == _z3.Select(was, r))
+        if not same:
+            return Val.const(True)
+        return Val(BOOL, _z3.ForAll([r], _z3.Implies(guard, _z3.And(*same))))
+
+    return derived
+
+
 cls("C03_PointPen", fields={"target": Ref("StubGlyph"), "reversing": BOOL}, notes="point pen writing into a glyph; `reversing`: wrapped in ReverseContourPointPen (assumed pen protocol)")
 cls("C03_Component", fields={"baseGlyph": STR}, notes="component reference")
 cls(
@@ -459,6 +492,8 @@ cls(
         "drawn_from": Opt(Ref("StubGlyph")), "drawn_reversed": BOOL,
     },
     dynamic=True,
+    derived={"frame_fresh_only": _frame("fresh-only"), "frame_only_self": _frame("only-self")},
+    views={"frame_fresh_only": lambda o: True, "frame_only_self": lambda o: True},  # not observable natively
     methods={"_drawDefaultNotdef": _bound("_drawDefaultNotdef"), "_drawDefaultNotdefPoints": _bound("_drawDefaultNotdefPoints"), "getPointPen": _g_getPointPen, "drawPoints": _g_drawPoints},
     repo="ufo2ft.outlineCompiler:StubGlyph",
     notes="a glyph object as the '.notdef' machinery sees it (source glyph, copy or StubGlyph): name, metrics, unicodes; drawn_from / drawn_reversed = "
@@ -480,6 +515,7 @@ def _stub_contract(name, uni_ty, uni_expr, first_expr):
             "unicode": f"self.unicode == {first_expr}",
             "empty": "len(self.components) == 0 and len(self.anchors) == 0 and len(self.lib) == 0",
             "direction": "self.reverseContour == reverseContour",
+            "frame": "self.frame_only_self",
         },
         canaries={"never-reversed": "not self.reverseContour"},
     )
@@ -511,12 +547,17 @@ CONTRACTS["ufo2ft.outlineCompiler:StubGlyph.__init__#with-unicodes"].runtime = R
 def _factory_call(ex, st, self, args, kwargs, node):
     g = ex.new_object(st, "StubGlyph")
     ex.write_field(st, g, "name", args[0], node)
+    ex.write_field(st, g, "unicodes", Val.const([]), node)
     ex.write_field(st, g, "drawn_from", Val(Opt(Ref("StubGlyph")), Opt(Ref("StubGlyph")).sort().nil), node)
+    for k, v in kwargs.items():
+        if k not in ("width", "height"):
+            raise Unsupported(f"glyph factory keyword {k}", node)
+        ex.write_field(st, g, k, v, node)
     return g
 
 
-_factory_call.modifies = ["StubGlyph.name", "StubGlyph.drawn_from"]
-cls("C03_GlyphFactory", methods={"__call__": _factory_call}, notes="newGlyph(name): a fresh empty glyph object with that name")
+_factory_call.modifies = ["StubGlyph.name", "StubGlyph.unicodes", "StubGlyph.drawn_from", "StubGlyph.width", "StubGlyph.height"]
+cls("C03_GlyphFactory", methods={"__call__": _factory_call}, notes="newGlyph(name, **kw): a fresh EMPTY glyph object (no code points, no outline) with that name; width/height keywords stored")
 
 
 @trusted("c03.getNewGlyphFactory", "ufo2ft.util._getNewGlyphFactory(glyph) returns a function making a NEW, empty glyph object of the UFO library's class with the "
@@ -553,7 +594,186 @@ _COPY = contract(
         "unicodes": "result.unicodes == glyph.unicodes",
         "metrics": "result.width == glyph.width and result.height == glyph.height",
         "outline": "result.drawn_from == glyph and result.drawn_reversed == reverseContour",
-        "source-untouched": "glyph.name == old(glyph.name) and glyph.unicodes == old(glyph.unicodes) and glyph.width == old(glyph.width)",
+        # frame: no glyph object that existed before (the source glyph included) changes name, code points or width
+        "frame": "glyph.frame_fresh_only",
     },
     canaries={"never-reversed": "not result.drawn_reversed"},
 )
+
+
+# run-time side of _copyGlyph#c03: the ghost record (drawn_from / drawn_reversed) is recomputed from the real outlines
+_SRC = [None]
+
+
+def _outline(g, reverse=False):
+    from fontTools.pens.pointPen import ReverseContourPointPen
+    from fontTools.pens.recordingPen import RecordingPointPen
+
+    p = RecordingPointPen()
+    g.drawPoints(ReverseContourPointPen(p) if reverse else p)
+    return p.value
+
+
+def _view_drawn_from(o):
+    s = _SRC[0]
+    return s if s is not None and _outline(o) in (_outline(s), _outline(s, True)) else None
+
+
+def _view_drawn_reversed(o):
+    s = _SRC[0]
+    return s is not None and _outline(o) == _outline(s, True) and _outline(o) != _outline(s)
+
+
+CLASSES["StubGlyph"].views.update({"drawn_from": _view_drawn_from, "drawn_reversed": _view_drawn_reversed, "unicodes": lambda o: list(o.unicodes)})
+_KEEP = []
+
+
+def _copy_cases(rng, n):
+    return [{"ufolib": ["ufoLib2", "defcon"][k % 2], "unicodes": rng.choice([[], [65], [0x1F600, 66]]), "width": rng.choice([0, 500, 612.5]),
+             "name": rng.choice([".notdef", "a"]), "rev": bool((k // 2) % 2)} for k in range(n)]
+
+
+def _copy_build(d):
+    from . import rtlib
+
+    f = rtlib.build_ufo({"glyphs": {d["name"]: {"width": d["width"], "unicodes": d["unicodes"], "contours": [[(0, 0, "line"), (100, 0, "line"), (50, 80, "line")]]}}}, d["ufolib"])
+    _KEEP.append(f)
+    del _KEEP[:-50]
+    _SRC[0] = f[d["name"]]
+    return {"glyph": f[d["name"]], "reverseContour": d["rev"]}
+
+
+_COPY.runtime = Runtime(_copy_cases, _copy_build, call=lambda fn, a: fn(a["glyph"], reverseContour=a["reverseContour"]))
+_COPY.globals["fresh"] = lambda x: True  # allocation is not observable natively
+
+
+# ---- makeMissingRequiredGlyphs ---------------------------------------------------------------------------------------
+from pyvc import rt as _rt  # noqa: E402
+
+def _ngs_getitem(ex, st, self, idx, node):
+    return ex.getitem(ex.read_field(st, self, "glyphs"), idx, st, node)
+
+
+def _ngs_setitem(ex, st, self, idx, v, node):
+    from pyvc import models
+
+    cur = ex.read_field(st, self, "glyphs")
+    ex.write_field(st, self, "glyphs", models.set_item(ex, st, cur, idx, v, node), node)
+
+
+def _ngs_contains(ex, st, self, x):
+    d = ex.read_field(st, self, "glyphs")
+    return _z3.Select(d.ty.sort().dom(d.term), _lift(x, STR))
+
+
+def _ngs_fieldmap(ex, st, self, field, t):
+    """name -> <field> of the glyph stored under that name (a heap-derived view)"""
+    d = ex.read_field(st, self, "glyphs")
+    n = _z3.Const("n!" + field, _z3.StringSort())
+    arr = ex.field_array(st, "StubGlyph", field)
+    return Val(Map(STR, t), _z3.Lambda([n], _z3.Select(arr, _z3.Select(d.ty.sort().map(d.term), n))))
+
+
+def _ngs_keyset(ex, st, self):
+    d = ex.read_field(st, self, "glyphs")
+    return Val(Set(STR), d.ty.sort().dom(d.term))
+
+
+def _ngs_keys(ex, st, self, args, kwargs, node):
+    return ex.call_method(ex.read_field(st, self, "glyphs"), "keys", [], {}, st, node)
+
+
+cls(
+    "NotdefGlyphSet",
+    fields={"glyphs": Dict(STR, Ref("StubGlyph"))},
+    getitem=_ngs_getitem, setitem=_ngs_setitem, contains=_ngs_contains, methods={"keys": _ngs_keys},
+    derived={"ident": lambda ex, st, self: ex.read_field(st, self, "glyphs"), "uni": lambda ex, st, self: _ngs_fieldmap(ex, st, self, "unicodes", List(INT)),
+             "gname": lambda ex, st, self: _ngs_fieldmap(ex, st, self, "name", STR), "keyset": lambda ex, st, self: _ngs_keyset(ex, st, self)},
+    views={"glyphs": lambda o: {k: _rt.Proxy(v, CLASSES["StubGlyph"]) for k, v in o.items()}, "ident": lambda o: {k: id(v) for k, v in o.items()},
+           "uni": lambda o: {k: list(v.unicodes) for k, v in o.items()}, "gname": lambda o: {k: v.name for k, v in o.items()}, "keyset": lambda o: set(o.keys())},
+    notes="the glyph set handed to the compiler (a dict name -> glyph object); ident = name -> object identity",
+)
+cls("NotdefCompiler", fields={"compilingVFDefaultSource": BOOL}, repo="ufo2ft.outlineCompiler:BaseOutlineCompiler", notes="compiler instance as makeMissingRequiredGlyphs sees it")
+
+_GS = "glyphSet.glyphs"
+_N = f"{_GS}['.notdef']"
+_ABSENT = f"'.notdef' not in old({_GS})"
+_TT = "'\\x00\\x01\\x00\\x00'"
+
+
+def _upm(attr):
+    return f"otRound(getAttrWithFallback(font.info, '{attr}'))"
+
+
+# glyph objects that are in the set exist (trivially true at the call site; the engine does not assume it for references read
+# out of a dict, and a freshly created stub must not alias them)
+_MMRG_REQUIRES = [f"all(allocated({_GS}[g]) for g in {_GS})"]
+_G["allocated"] = lambda x: True  # natively: every object at hand exists
+
+_MMRG_ENSURES = {
+    "notdef-present": "'.notdef' in glyphSet",
+    # the glyphs that were there keep their names and code points (what the glyph order and the character map are built from)
+    "glyphs-keep-name-and-code-points": f"all(glyphSet.uni[g] == old(glyphSet.uni)[g] and glyphSet.gname[g] == old(glyphSet.gname)[g] for g in old({_GS}))",
+    # every glyph that was there is still there, the same object ...
+    "others-untouched": f"all(g in {_GS} and glyphSet.ident[g] == old(glyphSet.ident)[g] for g in old({_GS}))",
+    # ... and nothing but '.notdef' is added
+    "only-notdef-added": f"all(g == '.notdef' or g in old({_GS}) for g in {_GS})",
+    # no given glyph: a stub named '.notdef', half an em wide, WITHOUT code points, drawn in the flavour's contour direction
+    "synthesised": f"implies({_ABSENT} and notdefGlyph is None, {_N}.name == '.notdef' and len({_N}.unicodes) == 0 and {_N}.width == otRound({_upm('unitsPerEm')} * 0.5)"
+    f" and {_N}.unitsPerEm == {_upm('unitsPerEm')} and {_N}.ascender == {_upm('ascender')} and {_N}.descender == {_upm('descender')}"
+    f" and {_N}.reverseContour == (sfntVersion == {_TT}))",
+    # a given glyph: a COPY of it (same name, same code points), contours reversed for TrueType
+    "copied": f"implies({_ABSENT} and notdefGlyph is not None, {_N} != notdefGlyph and {_N}.name == notdefGlyph.name and {_N}.unicodes == notdefGlyph.unicodes"
+    f" and {_N}.drawn_from == notdefGlyph and {_N}.drawn_reversed == (sfntVersion == {_TT}))",
+}
+
+_MMRG = contract(
+    "ufo2ft.outlineCompiler:BaseOutlineCompiler.makeMissingRequiredGlyphs",
+    props=["C03"],
+    params={"self": Ref("NotdefCompiler"), "font": Ref("Font"), "glyphSet": Ref("NotdefGlyphSet"), "sfntVersion": STR, "notdefGlyph": Opt(Ref("StubGlyph"))},
+    globals=_G,
+    requires=_MMRG_REQUIRES,
+    calls={"ufo2ft.util:_copyGlyph": "ufo2ft.util:_copyGlyph#c03"},
+    modifies=["NotdefGlyphSet.glyphs"] + sorted(set(_COPY.modifies) | set(CONTRACTS["ufo2ft.outlineCompiler:StubGlyph.__init__"].modifies)),
+    ensures=_MMRG_ENSURES,
+    canaries={"always-synthesised": f"{_N}.name == '.notdef' and len({_N}.unicodes) == 0"},
+)
+
+
+def _mmrg_cases(rng, n):
+    out = []
+    for k in range(n):
+        names = rng.sample([".notdef", "a", "b", "space"], rng.randint(0, 4))
+        out.append({"names": names, "given": k % 3 == 0, "given_unicodes": rng.choice([[], [0x41]]), "tt": bool(k % 2), "ufolib": ["ufoLib2", "defcon"][(k // 2) % 2],
+                    "info": rng.choice([{}, {"unitsPerEm": 2048, "ascender": 1500.5, "descender": -500}, {"unitsPerEm": 999}]), "vfdefault": k % 5 != 4})
+    return out
+
+
+def _mmrg_build(flavor):
+    def build(d):
+        from ufo2ft.outlineCompiler import OutlineOTFCompiler, OutlineTTFCompiler
+
+        from . import rtlib
+
+        glyphs = {nm: {"width": 300, "contours": [[(0, 0, "line"), (100, 0, "line"), (50, 80, "line")]]} for nm in d["names"]}
+        if flavor == "ttf" and "a" in glyphs:
+            glyphs["a"]["components"] = [["missing", [1, 0, 0, 1, 0, 0]]]
+        f = rtlib.build_ufo({"glyphs": glyphs, "info": d["info"]}, d["ufolib"])
+        given = None
+        if d["given"]:
+            f2 = rtlib.build_ufo({"glyphs": {"nd": {"width": 444, "unicodes": d["given_unicodes"], "contours": [[(0, 0, "line"), (10, 0, "line"), (5, 8, "line")]]}}}, d["ufolib"])
+            _KEEP.append(f2)
+            given = f2["nd"]
+        _KEEP.append(f)
+        del _KEEP[:-60]
+        _SRC[0] = given
+        klass = OutlineTTFCompiler if flavor == "ttf" else OutlineOTFCompiler
+        comp = klass.__new__(klass)
+        comp.ufo = f
+        comp.compilingVFDefaultSource = d["vfdefault"]
+        return {"self": comp, "font": f, "glyphSet": {g.name: g for g in f}, "sfntVersion": "\x00\x01\x00\x00" if d["tt"] else "OTTO", "notdefGlyph": given}
+
+    return build
+
+
+_MMRG.runtime = Runtime(_mmrg_cases, _mmrg_build("otf"), call=lambda fn, a: fn(a["self"], a["font"], a["glyphSet"], a["sfntVersion"], a["notdefGlyph"]))
